@@ -20,7 +20,28 @@ fn any_expr(d: Dialect) -> BoxedStrategy<E> {
     prop_oneof![3 => expr(d, 2, true), 1 => expr(d, 3, false)].boxed()
 }
 
+/// a WHERE / HAVING / ON element: mostly a plain expression, sometimes a condition group (any / all, negate, nested, empty)
+fn pred(d: Dialect) -> BoxedStrategy<E> {
+    let group = |inner: BoxedStrategy<E>| {
+        (any::<bool>(), proptest::bool::weighted(0.3), proptest::collection::vec(inner, 0..4)).prop_map(|(any, negate, members)| E::Cond { any, negate, members })
+    };
+    let leaf = small_expr(d);
+    let nested = prop_oneof![4 => small_expr(d), 1 => group(small_expr(d)).boxed()].boxed();
+    prop_oneof![3 => leaf, 1 => group(nested).boxed()].boxed()
+}
+
 fn ord(d: Dialect, exec: bool) -> BoxedStrategy<OrdSpec> {
+    let general = ord_general(d, exec);
+    // NULLS FIRST/LAST over a COALESCE / IFNULL of two nullable columns: the native forms and MySQL's emulation must agree
+    let nullable_fn = (any::<bool>(), 0u8..4, 0u8..4, any::<bool>(), any::<bool>()).prop_map(|(coalesce, x, y, desc, first)| OrdSpec {
+        e: E::Func(if coalesce { F::Coalesce } else { F::IfNull }, vec![E::Col(x), E::Col(y)]),
+        dir: if desc { Dir::Desc } else { Dir::Asc },
+        nulls: Some(first),
+    });
+    prop_oneof![9 => general, 1 => nullable_fn].boxed()
+}
+
+fn ord_general(d: Dialect, exec: bool) -> BoxedStrategy<OrdSpec> {
     (
         if exec { small_expr(d) } else { any_expr(d) },
         prop_oneof![4 => Just(Dir::Asc), 4 => Just(Dir::Desc), 1 => proptest::collection::vec(0i64..4, 1..4).prop_map(Dir::Field)],
@@ -85,7 +106,7 @@ fn join(d: Dialect, depth: u32, exec: bool) -> BoxedStrategy<JoinSpec> {
     (
         proptest::sample::select(vec![JoinKind::Join, JoinKind::Inner, JoinKind::Left, JoinKind::Right, JoinKind::FullOuter, JoinKind::Cross]),
         from_item(d, depth, exec),
-        small_expr(d),
+        pred(d),
         proptest::bool::weighted(0.1),
     )
         .prop_map(|(kind, src, on, lateral)| JoinSpec { kind, src, on, lateral })
@@ -121,9 +142,9 @@ pub fn select(d: Dialect, depth: u32, exec: bool) -> BoxedStrategy<SelectSpec> {
         proptest::collection::vec(item(d, exec), 1..6),
         proptest::collection::vec(from_item(d, depth, exec), 0..3),
         proptest::collection::vec(join(d, depth, exec), 0..4),
-        proptest::collection::vec(small_expr(d), 0..4),
+        proptest::collection::vec(pred(d), 0..4),
         proptest::collection::vec(small_expr(d), 0..5),
-        proptest::collection::vec(small_expr(d), 0..3),
+        proptest::collection::vec(pred(d), 0..3),
     );
     let part2 = (
         unions,
@@ -138,9 +159,10 @@ pub fn select(d: Dialect, depth: u32, exec: bool) -> BoxedStrategy<SelectSpec> {
         if depth == 0 { Just(None).boxed() } else { proptest::option::weighted(0.2, with(d, sub_depth, exec)).boxed() },
         proptest::collection::vec((0u8..3, 0u8..4), 0..2),
         proptest::option::weighted(0.15, (any::<bool>(), 1u32..100, proptest::option::of(0u32..10))),
+        any::<u8>(),
     );
     (part1, part2)
-        .prop_map(|((distinct, items, from, joins, wheres, groups, havings), (unions, orders, limit, offset, lock, window, with, hints, sample))| SelectSpec {
+        .prop_map(|((distinct, items, from, joins, wheres, groups, havings), (unions, orders, limit, offset, lock, window, with, hints, sample, api))| SelectSpec {
             distinct,
             items,
             from,
@@ -157,6 +179,7 @@ pub fn select(d: Dialect, depth: u32, exec: bool) -> BoxedStrategy<SelectSpec> {
             with,
             hints,
             sample,
+            api,
         })
         .boxed()
 }
@@ -181,8 +204,9 @@ fn conflict(d: Dialect) -> BoxedStrategy<ConflictSpec> {
             proptest::collection::vec((1u8..5, small_expr(d)), 1..3).prop_map(ConflictAction::UpdateValues),
         ],
         proptest::option::weighted(0.2, small_expr(d)),
+        any::<u8>(),
     )
-        .prop_map(|(targets, target_where, action, action_where)| ConflictSpec { targets, target_where, action, action_where })
+        .prop_map(|(targets, target_where, action, action_where, api)| ConflictSpec { targets, target_where, action, action_where, api })
         .boxed()
 }
 
@@ -199,8 +223,9 @@ pub fn insert(d: Dialect, exec: bool) -> BoxedStrategy<InsertSpec> {
         proptest::option::weighted(0.35, conflict(d)),
         proptest::option::weighted(0.3, returning(d)),
         proptest::option::weighted(0.1, with(d, 0, exec)),
+        any::<u8>(),
     )
-        .prop_map(|(replace, table, columns, source, on_conflict, returning, with)| InsertSpec { replace, table, columns, source, on_conflict, returning, with })
+        .prop_map(|(replace, table, columns, source, on_conflict, returning, with, api)| InsertSpec { replace, table, columns, source, on_conflict, returning, with, api })
         .boxed()
 }
 
@@ -209,26 +234,28 @@ pub fn update(d: Dialect, exec: bool) -> BoxedStrategy<UpdateSpec> {
         0u8..3,
         proptest::collection::vec((1u8..5, small_expr(d)), 1..4),
         proptest::collection::vec((0u8..3, proptest::option::weighted(0.3, 3u8..6)).prop_map(|(t, a)| FromSpec::Table(t, a)), 0..2),
-        proptest::collection::vec(small_expr(d), 0..3),
+        proptest::collection::vec(pred(d), 0..3),
         proptest::collection::vec(ord(d, exec), 0..2),
         proptest::option::weighted(0.3, 0u64..4),
         proptest::option::weighted(0.3, returning(d)),
         proptest::option::weighted(0.1, with(d, 0, exec)),
+        any::<u8>(),
     )
-        .prop_map(|(table, sets, from, wheres, orders, limit, returning, with)| UpdateSpec { table, sets, from, wheres, orders, limit, returning, with })
+        .prop_map(|(table, sets, from, wheres, orders, limit, returning, with, api)| UpdateSpec { table, sets, from, wheres, orders, limit, returning, with, api })
         .boxed()
 }
 
 pub fn delete(d: Dialect, exec: bool) -> BoxedStrategy<DeleteSpec> {
     (
         0u8..3,
-        proptest::collection::vec(small_expr(d), 0..3),
+        proptest::collection::vec(pred(d), 0..3),
         proptest::collection::vec(ord(d, exec), 0..2),
         proptest::option::weighted(0.3, 0u64..4),
         proptest::option::weighted(0.3, returning(d)),
         proptest::option::weighted(0.1, with(d, 0, exec)),
+        any::<u8>(),
     )
-        .prop_map(|(table, wheres, orders, limit, returning, with)| DeleteSpec { table, wheres, orders, limit, returning, with })
+        .prop_map(|(table, wheres, orders, limit, returning, with, api)| DeleteSpec { table, wheres, orders, limit, returning, with, api })
         .boxed()
 }
 
@@ -292,7 +319,7 @@ pub fn fix_select_render(s: &mut SelectSpec, d: Dialect) {
         if d == Dialect::Mysql && j.kind == JoinKind::FullOuter {
             j.kind = JoinKind::Left; // documented panic: "Mysql does not support FULL OUTER JOIN"
         }
-        if d == Dialect::Postgres && j.kind == JoinKind::Cross && !matches!(j.src, FromSpec::Table(0, _)) {
+        if d == Dialect::Postgres && j.kind == JoinKind::Cross && !matches!(j.src, FromSpec::Table(0, Some(3))) {
             // Postgres CROSS JOIN .. ON is a known finding (C08 K1); keep it rare so that it does not mask the rest of such statements
             j.kind = JoinKind::Inner;
         }
@@ -455,6 +482,8 @@ fn rescope(e: &E, scope: &[u8]) -> E {
 fn not_positional(e: E) -> E {
     match e {
         E::Int(_) | E::Const(_) => E::Null,
+        // as_enum writes nothing on SQLite / MySQL, so the constant would again stand alone
+        E::AsEnum(x) => E::AsEnum(Box::new(not_positional(*x))),
         other => other,
     }
 }
@@ -473,7 +502,7 @@ fn portable_expr(e: &E) -> E {
             let r2 = if matches!(op2, Op::Is | Op::IsNot) { E::Null } else { portable_expr(r) };
             E::Bin(Box::new(portable_expr(l)), op2, Box::new(r2))
         }
-        E::Cast(x, _) => portable_expr(x),
+        E::Cast(x, _) | E::AsEnum(x) => portable_expr(x),
         E::Text(_) => E::Int(1),
         E::Bool(b) => E::Int(*b as i64),
         E::ConstBool(b) => E::Int(*b as i64),
